@@ -13,6 +13,7 @@ from __future__ import annotations
 import hashlib
 import json
 import multiprocessing as mp
+import multiprocessing.connection  # noqa: F401
 import os
 import subprocess
 import sys
@@ -110,9 +111,61 @@ def run_tasks(modname, tasks, tier, timeout_ms, workers=None):
     args = [(modname, f, kw, tier, timeout_ms) for f, kw in tasks]
     if len(args) == 1 or workers == 1:
         return [_run_task(a) for a in args]
+    # one forked process per task; a worker that dies (killed by the kernel, a crash inside a solver) becomes a
+    # harness error of that task instead of a pool that waits for ever
+    import concurrent.futures as cf
+
     ctxm = mp.get_context("fork")
-    with ctxm.Pool(min(workers, len(args)), maxtasksperchild=1) as pool:
-        return pool.map(_run_task, args, chunksize=1)
+    reports = [None] * len(args)
+    pending = list(enumerate(args))
+    running = {}
+    cap = float(os.environ.get("VERIF_TASK_WALL_S", "7200"))
+
+    def child(conn, a):
+        try:
+            import resource
+
+            lim = int(os.environ.get("VERIF_TASK_MEMORY_MB", "12000")) << 20
+            resource.setrlimit(resource.RLIMIT_AS, (lim, lim))
+        except Exception:  # noqa: BLE001
+            pass
+        conn.send(_run_task(a))
+        conn.close()
+
+    n_par = min(workers, len(args))
+    while pending or running:
+        while pending and len(running) < n_par:
+            i, a = pending.pop(0)
+            rx, tx = ctxm.Pipe(duplex=False)
+            pr = ctxm.Process(target=child, args=(tx, a))
+            pr.start()
+            tx.close()
+            running[i] = (pr, rx, time.time(), a)
+        mp.connection.wait([rx for _, rx, _, _ in running.values()], timeout=5)
+        for i in list(running):
+            pr, rx, t0, a = running[i]
+            rep = None
+            if rx.poll():
+                try:
+                    rep = rx.recv()
+                except (EOFError, OSError):
+                    rep = None
+                    pr.join(5)
+                    rep = Report(f"{a[1]}{a[2] if a[2] else ''}")
+                    rep.error = f"worker process died without a result (exit code {pr.exitcode}): killed or crashed"
+            elif not pr.is_alive():
+                rep = Report(f"{a[1]}{a[2] if a[2] else ''}")
+                rep.error = f"worker process died without a result (exit code {pr.exitcode}): killed or crashed"
+            elif time.time() - t0 > cap:
+                pr.kill()
+                rep = Report(f"{a[1]}{a[2] if a[2] else ''}")
+                rep.error = f"task exceeded the wall-clock cap of {cap:.0f} s and was stopped"
+            if rep is not None:
+                reports[i] = rep
+                pr.join(5)
+                rx.close()
+                del running[i]
+    return reports
 
 
 # ---------------------------------------------------------------------------------------
